@@ -1014,6 +1014,55 @@ func init() {
 		}
 		return in.interpretBody(fr, fn, a)
 	})
+	reg("errors.As", func(in *Interp, fr *Frame, fn *ssa.Function, a []Value) Value {
+		err, target := a[0].(Iface), a[1].(Iface)
+		if target.T == nil {
+			in.rtPanic(fr, "errors: target cannot be nil")
+		}
+		pt, ok := target.T.Underlying().(*types.Pointer)
+		if !ok {
+			in.rtPanic(fr, "errors: target must be a non-nil pointer")
+		}
+		elem := pt.Elem()
+		dst := target.V.(*Value)
+		for depth := 0; depth < 20 && err.T != nil; depth++ {
+			if it, isIface := elem.Underlying().(*types.Interface); isIface {
+				if types.Implements(err.T, it) || in.implementsViaMethodSet(err.T, it) {
+					*dst = err
+					return in.ts.tt
+				}
+			} else if types.Identical(err.T, elem) {
+				*dst = err.V
+				return in.ts.tt
+			}
+			var next Iface
+			found := false
+			if p, ok := err.V.(*Value); ok {
+				if w, ok := in.wrapped[p]; ok {
+					next, found = w, true
+				}
+			}
+			if !found {
+				ms := in.prog.MethodSets.MethodSet(err.T)
+				for i := 0; i < ms.Len(); i++ {
+					if ms.At(i).Obj().Name() == "Unwrap" {
+						sig := ms.At(i).Obj().Type().(*types.Signature)
+						if sig.Results().Len() == 1 {
+							if _, isIface := sig.Results().At(0).Type().Underlying().(*types.Interface); isIface {
+								r := in.callFunction(fr, in.prog.MethodValue(ms.At(i)), []Value{err.V}, nil)
+								next, found = r.(Iface), true
+							}
+						}
+					}
+				}
+			}
+			if !found {
+				return in.ts.ff
+			}
+			err = next
+		}
+		return in.ts.ff
+	})
 	reg("errors.Is", func(in *Interp, fr *Frame, fn *ssa.Function, a []Value) Value {
 		err, target := a[0].(Iface), a[1].(Iface)
 		for depth := 0; depth < 20; depth++ {
